@@ -11,7 +11,7 @@ from props.c17 import valid_bases
 
 PROP = 'C12'
 # digit positions (0-based: year pos, year len, month pos, day pos) -- used ONLY to synthesise inputs with chosen dates
-POS = {'be.nn': (0, 2, 2, 4), 'be.bis': (0, 2, 2, 4), 'bg.egn': (0, 2, 2, 4), 'cn.ric': (6, 4, 10, 12), 'cu.ni': (0, 2, 2, 4),
+POS = {'it.codicefiscale_': (0, 0, 0, 0), 'be.nn': (0, 2, 2, 4), 'be.bis': (0, 2, 2, 4), 'bg.egn': (0, 2, 2, 4), 'cn.ric': (6, 4, 10, 12), 'cu.ni': (0, 2, 2, 4),
        'cz.rc': (0, 2, 2, 4), 'sk.rc': (0, 2, 2, 4), 'dk.cpr': (4, 2, 2, 0), 'ee.ik': (1, 2, 3, 5), 'lt.asmens': (1, 2, 3, 5),
        'gr.amka': (4, 2, 2, 0), 'id.nik': (10, 2, 8, 6), 'kr.rrn': (0, 2, 2, 4), 'lv.pvn': (4, 2, 2, 0), 'mx.curp': (4, 2, 6, 8),
        'my.nric': (0, 2, 2, 4), 'no.fodselsnummer': (4, 2, 2, 0), 'pl.pesel': (0, 2, 2, 4), 'ro.cnp': (1, 2, 3, 5),
@@ -34,6 +34,33 @@ def getters(mod):
                 out.append(fn)
     order = {'get_birth_date': 0}
     return sorted(out, key=lambda g: (order.get(g, 1), g))
+
+
+def with_raw_fields(mod, name, v, mraw, draw):
+    """v with the raw two-digit month / day FIELDS set (values outside any calendar, e.g. 93 or 87) and the tail searched for
+    a valid completion: finds numbers whose date fields a lax validator reduces silently."""
+    if name not in POS or not v.isascii():
+        return []
+    yp, yl, mp, dp = POS[name]
+    if len(v) < max(mp + 2, dp + 2):
+        return []
+    w = list(v)
+    if mraw is not None:
+        w[mp:mp + 2] = '%02d' % mraw
+    if draw is not None:
+        w[dp:dp + 2] = '%02d' % draw
+    t = ''.join(w)
+    for tail in range(0, 1000):
+        for k in (1, 2, 3):
+            if tail >= 10 ** k:
+                continue
+            u = t[:-k] + ('%0' + str(k) + 'd') % tail
+            try:
+                if mod.is_valid(u) is True and mod.validate(u) == u:
+                    return [u]
+            except Exception:
+                pass
+    return []
 
 
 def with_date(mod, name, v, date, rnd):
@@ -105,6 +132,10 @@ def worker(unit, emit):
     for v in vals[:p['date_bases']]:
         for date in DATES:
             extra += with_date(mod, name, v, date, rnd)
+    for v in vals[:2]:
+        for mraw, draw in ((None, 32), (None, 39), (None, 72), (None, 87), (None, 94), (13, None), (19, None), (33, None), (53, None), (73, None),
+                           (93, None), (0, None), (None, 0)):
+            extra += with_raw_fields(mod, name, v, mraw, draw)
     # unknown registry prefixes
     if name == 'imsi':
         extra += [x for x in ('467071234567890', '999991234567890', '001011234567890', '310599123456789') if mod.is_valid(x)]
